@@ -16,6 +16,11 @@ BUILT = {
          "Uses the C01 shape oracle; coincidental families are skipped and counted; the known finding dedup:renamed-path-collides is excluded by construction from part (b) and covered by its probe.",
          "bounded-exhaustive family enumeration + proptest-driven random families against the property-shaped shape oracle",
          "DESIGN.md section 5 C03, Appendix B"),
+ "C04": ("exploration",
+         "Tens of thousands to a million generated registries with same-path families (generic instantiations, associated-type definitions, two versions with several shapes, names ending in digits, random order) plus closed sub-registries of the Polkadot metadata are put through ensure_unique_type_paths and the result is compared with the input clause by clause (frame condition, all-or-nothing renaming, numbering by first appearance, instantiations of one coincidence-free definition stay together, idempotence, no DuplicateTypePath afterwards).",
+         "Whether two groups really differ in shape is C03's oracle; the ground truth for 'instantiations of one definition' comes from the source program and is used for coincidence-free programs only. Registries with the known finding's shape (family next to an existing Name<digits>) are excluded and counted.",
+         "proptest-driven tape generator of family-rich registries + before/after model of the de-duplication contract + metamorphic idempotence check",
+         "DESIGN.md section 5 C04"),
  "C15": ("exploration",
          "Bounded-exhaustive enumeration of all strings over the 9-character bracket alphabet up to length 7 (quick) / 9 (thorough) plus tape-driven random hostile strings and properly nested strings around the 32-character look-ahead, each checked against a whitespace-only relation and an indentation depth model; every description produced by the C13 check is also fed through it. Exploration is the right level: the function is total over strings, cheap, and its only state is a depth counter, so small-scope exhaustiveness plus boundary-directed generation covers its decision structure.",
          "Trusts the harness' depth model (validated against the unchanged formatter on the exhaustive stratum) and Rust's char::is_whitespace. The small/large scope decision is not constrained.",
